@@ -420,9 +420,11 @@ def b_flat(case, ctx):
             return
         rings = G.build_rings(case["polygon"])
         nh = len(rings) - 1
+        hk = sorted({h.get("kind", "star") for h in case["polygon"]["holes"]})
+        hole_cls = [f"flat:hole:{k}" for k in hk] + [f"flat:hole:{k}:{case.get('engine')}" for k in hk if "engine" in case]
         if kind == "triangulate":
             eng = case["engine"]
-            ctx.note(nontrivial=True, cls=[f"flat:triangulate:{eng}", f"holes={nh}"])
+            ctx.note(nontrivial=True, cls=[f"flat:triangulate:{eng}", f"holes={nh}"] + hole_cls)
             V, F = creation.triangulate_polygon(shapely_polygon(rings), engine=eng)
             check_triangulation(V, F, rings, f"C15.flat|triangulate|{eng}")
             return
@@ -433,7 +435,7 @@ def b_flat(case, ctx):
         M = np.eye(4) if place["M"] is None else np.array(place["M"], dtype=np.float64)
         if kind == "extrude_polygon":
             eng = case["engine"]
-            ctx.note(nontrivial=pc not in ("none", "identity"), cls=[f"flat:extrude_polygon:{pc}", f"flat:engine:{eng}", f"holes={nh}", "height<0" if h < 0 else "height>0", f"placement:{pc}"])
+            ctx.note(nontrivial=pc not in ("none", "identity"), cls=[f"flat:extrude_polygon:{pc}", f"flat:engine:{eng}", f"holes={nh}", "height<0" if h < 0 else "height>0", f"placement:{pc}"] + hole_cls)
             sig = f"C15.flat|extrude_polygon|{pc}"
             ekw = {} if eng is None else {"engine": eng}
             m = creation.extrude_polygon(shapely_polygon(rings), h, **kw, **ekw)
@@ -793,6 +795,125 @@ def is_sim_scale(M):
     return s
 
 
+def apply_op(P, kind, o, ctx, hist):
+    """apply one edit to primitive P and check that its reported parameters follow a model of the edit"""
+    op = o["op"]
+    before = reported(P, kind)
+    expect = {}
+    if op in ("set_radius", "set_height", "set_sections", "set_subdivisions"):
+        key = op[4:]
+        setattr(P.primitive, key, o["v"])
+        expect[key] = o["v"]
+    elif op == "set_extents":
+        P.primitive.extents = o["v"]
+        expect["extents"] = np.array(o["v"], dtype=np.float64)
+    elif op == "extents_inplace":
+        P.primitive.extents[o["i"]] = o["v"]
+        e = before["extents"].copy()
+        e[o["i"]] = o["v"]
+        expect["extents"] = e
+    elif op == "extents_imul":
+        P.primitive.extents *= o["v"]
+        expect["extents"] = before["extents"] * o["v"]
+    elif op == "set_transform":
+        P.primitive.transform = np.array(o["M"], dtype=np.float64)
+        expect["transform"] = np.array(o["M"], dtype=np.float64)
+    elif op == "transform_inplace":
+        P.primitive.transform[:3, 3] = o["v"]
+        t = before["transform"].copy()
+        t[:3, 3] = o["v"]
+        expect["transform"] = t
+    elif op in ("set_center", "sphere_center"):
+        if op == "sphere_center":
+            P.center = o["v"]
+        else:
+            P.primitive.center = o["v"]
+        expect["center"] = np.array(o["v"], dtype=np.float64)
+    elif op == "transform_iadd":
+        P.primitive.transform[o["i"], 3] += o["v"]
+        t = before["transform"].copy()
+        t[o["i"], 3] += o["v"]
+        expect["transform"] = t
+    elif op == "center_inplace":
+        # `center` is documented as the translation part of the transform: write through it
+        if kind == "Sphere" and o.get("via_sphere"):
+            P.center[: o["n"]] = o["v"][: o["n"]]
+        else:
+            P.primitive.center[: o["n"]] = o["v"][: o["n"]]
+        t = before["transform"].copy()
+        t[: o["n"], 3] = o["v"][: o["n"]]
+        expect["transform"] = t
+    elif op == "slide":
+        P.slide(o["v"])
+        t = before["transform"].copy()
+        t[:3, 3] = t[:3, 3] + t[:3, 2] * o["v"]
+        expect["transform"] = t
+    elif op == "set_polygon":
+        rings = G.build_rings(o["v"])
+        P.primitive.polygon = shapely_polygon(rings)
+        expect["polygon_area"] = O.polygon_moments(rings, [(0, 0)])[0]
+    elif op == "apply_transform":
+        M = np.array(o["M"], dtype=np.float64)
+        s = is_sim_scale(M)
+        P.apply_transform(M)
+        S = np.diag([1 / s, 1 / s, 1 / s, 1.0])
+        expect["transform"] = M @ before["transform"] @ S
+        for k in ("radius", "height", "extents"):
+            if k in before and kind != "Extrusion":
+                expect[k] = before[k] * s
+        state_check(P, kind, f"C15.stateful|{kind}|apply_transform", ctx)
+    elif op == "apply_mirror":
+        # a reflection (times a uniform scale): either a clean ValueError that leaves the primitive unchanged,
+        # or the primitive now is the mirror image: positive parameters scaled by |det|^(1/3), image mesh
+        M = np.array(o["M"], dtype=np.float64)
+        s = is_sim_scale(M)
+        old_mesh = np.array(P.vertices, dtype=np.float64)
+        old_vol = float(P.volume)
+        try:
+            P.apply_transform(M)
+            accepted = True
+        except ValueError:
+            accepted = False
+        ctx.note(cls="stateful:mirror:" + ("accepted" if accepted else "rejected"))
+        if not accepted:
+            expect = {k: v for k, v in before.items() if k != "polygon"}
+        else:
+            for k in ("radius", "height", "extents"):
+                if k in before and kind != "Extrusion":
+                    expect[k] = before[k] * s
+            expect["center"] = M[:3, :3] @ before["transform"][:3, 3] + M[:3, 3]
+            msig = f"C15.stateful|{kind}|apply_mirror"
+            positive_parameters(P, kind, msig)
+            check(abs(float(P.volume) - s**3 * old_vol) <= 1e-9 * s**3 * abs(old_vol), msig + "|volume", f"after {hist + [op]}: volume {P.volume} vs |det| x {old_vol}")
+            if kind != "Sphere":
+                want = old_mesh @ M[:3, :3].T + M[:3, 3]
+                ok, msg = O.match_point_sets(np.asarray(P.vertices), want, 1e-9 * (1 + np.abs(want).max()))
+                check(ok, msig + "|mesh_not_image", f"after {hist + [op]}: the mesh is not the mirror image of the previous mesh: {msg}")
+            state_check(P, kind, msig, ctx)
+    elif op == "apply_reject":
+        M = np.array(o["M"], dtype=np.float64)
+        try:
+            P.apply_transform(M)
+            raise Violation(f"C15.stateful|{kind}|accepts_non_similarity", f"apply_transform({M.tolist()}) succeeded")
+        except ValueError:
+            pass
+        expect = {k: v for k, v in before.items() if k != "polygon"}
+    hist.append(op + (":" + str(o.get("v")) if "v" in o and not isinstance(o.get("v"), dict) else ""))
+    # the reported parameters follow the edit (model of the edits)
+    rep = reported(P, kind)
+    for k, v in expect.items():
+        if k == "center":
+            got = np.array(P.primitive.center, dtype=np.float64)
+        elif k == "polygon_area":
+            got = float(P.primitive.polygon.area)
+        else:
+            got = rep[k]
+        got, v = np.asarray(got, dtype=np.float64), np.asarray(v, dtype=np.float64)
+        rt = 1e-9 if op == "apply_transform" else 1e-12
+        ok = got.shape == v.shape and bool(np.all(np.abs(got - v) <= rt * (1 + np.abs(v).max())))
+        check(ok, f"C15.stateful|{kind}|parameter|{op}|{k}", lambda: f"after {hist}: reported {k} = {got.tolist()}, expected {v.tolist()}")
+
+
 @body("C15.stateful")
 def b_stateful(case, ctx):
     kind, p = case["kind"], case["p"]
@@ -807,108 +928,8 @@ def b_stateful(case, ctx):
         collided = False
         last_read = scalars(P, kind)
         for o in ops:
-            op = o["op"]
-            before = reported(P, kind)
-            tail = op
-            expect = {}
-            if op in ("set_radius", "set_height", "set_sections", "set_subdivisions"):
-                key = op[4:]
-                setattr(P.primitive, key, o["v"])
-                expect[key] = o["v"]
-            elif op == "set_extents":
-                P.primitive.extents = o["v"]
-                expect["extents"] = np.array(o["v"], dtype=np.float64)
-            elif op == "extents_inplace":
-                P.primitive.extents[o["i"]] = o["v"]
-                e = before["extents"].copy()
-                e[o["i"]] = o["v"]
-                expect["extents"] = e
-            elif op == "extents_imul":
-                P.primitive.extents *= o["v"]
-                expect["extents"] = before["extents"] * o["v"]
-            elif op == "set_transform":
-                P.primitive.transform = np.array(o["M"], dtype=np.float64)
-                expect["transform"] = np.array(o["M"], dtype=np.float64)
-            elif op == "transform_inplace":
-                P.primitive.transform[:3, 3] = o["v"]
-                t = before["transform"].copy()
-                t[:3, 3] = o["v"]
-                expect["transform"] = t
-            elif op in ("set_center", "sphere_center"):
-                if op == "sphere_center":
-                    P.center = o["v"]
-                else:
-                    P.primitive.center = o["v"]
-                expect["center"] = np.array(o["v"], dtype=np.float64)
-            elif op == "slide":
-                P.slide(o["v"])
-                t = before["transform"].copy()
-                t[:3, 3] = t[:3, 3] + t[:3, 2] * o["v"]
-                expect["transform"] = t
-            elif op == "set_polygon":
-                rings = G.build_rings(o["v"])
-                P.primitive.polygon = shapely_polygon(rings)
-                expect["polygon_area"] = O.polygon_moments(rings, [(0, 0)])[0]
-            elif op == "apply_transform":
-                M = np.array(o["M"], dtype=np.float64)
-                s = is_sim_scale(M)
-                P.apply_transform(M)
-                S = np.diag([1 / s, 1 / s, 1 / s, 1.0])
-                expect["transform"] = M @ before["transform"] @ S
-                for k in ("radius", "height", "extents"):
-                    if k in before and kind != "Extrusion":
-                        expect[k] = before[k] * s
-                state_check(P, kind, f"C15.stateful|{kind}|apply_transform", ctx)
-            elif op == "apply_mirror":
-                # a reflection (times a uniform scale): either a clean ValueError that leaves the primitive unchanged,
-                # or the primitive now is the mirror image: positive parameters scaled by |det|^(1/3), image mesh
-                M = np.array(o["M"], dtype=np.float64)
-                s = is_sim_scale(M)
-                old_mesh = np.array(P.vertices, dtype=np.float64)
-                old_vol = float(P.volume)
-                try:
-                    P.apply_transform(M)
-                    accepted = True
-                except ValueError:
-                    accepted = False
-                ctx.note(cls="stateful:mirror:" + ("accepted" if accepted else "rejected"))
-                if not accepted:
-                    expect = {k: v for k, v in before.items() if k != "polygon"}
-                else:
-                    for k in ("radius", "height", "extents"):
-                        if k in before and kind != "Extrusion":
-                            expect[k] = before[k] * s
-                    expect["center"] = M[:3, :3] @ before["transform"][:3, 3] + M[:3, 3]
-                    msig = f"C15.stateful|{kind}|apply_mirror"
-                    positive_parameters(P, kind, msig)
-                    check(abs(float(P.volume) - s**3 * old_vol) <= 1e-9 * s**3 * abs(old_vol), msig + "|volume", f"after {hist + [op]}: volume {P.volume} vs |det| x {old_vol}")
-                    if kind != "Sphere":
-                        want = old_mesh @ M[:3, :3].T + M[:3, 3]
-                        ok, msg = O.match_point_sets(np.asarray(P.vertices), want, 1e-9 * (1 + np.abs(want).max()))
-                        check(ok, msig + "|mesh_not_image", f"after {hist + [op]}: the mesh is not the mirror image of the previous mesh: {msg}")
-                    state_check(P, kind, msig, ctx)
-            elif op == "apply_reject":
-                M = np.array(o["M"], dtype=np.float64)
-                try:
-                    P.apply_transform(M)
-                    raise Violation(f"C15.stateful|{kind}|accepts_non_similarity", f"apply_transform({M.tolist()}) succeeded")
-                except ValueError:
-                    pass
-                expect = {k: v for k, v in before.items() if k != "polygon"}
-            hist.append(op + (":" + str(o.get("v")) if "v" in o and not isinstance(o.get("v"), dict) else ""))
-            # the reported parameters follow the edit (model of the edits)
-            rep = reported(P, kind)
-            for k, v in expect.items():
-                if k == "center":
-                    got = np.array(P.primitive.center, dtype=np.float64)
-                elif k == "polygon_area":
-                    got = float(P.primitive.polygon.area)
-                else:
-                    got = rep[k]
-                got, v = np.asarray(got, dtype=np.float64), np.asarray(v, dtype=np.float64)
-                rt = 1e-9 if op == "apply_transform" else 1e-12
-                ok = got.shape == v.shape and bool(np.all(np.abs(got - v) <= rt * (1 + np.abs(v).max())))
-                check(ok, f"C15.stateful|{kind}|parameter|{op}|{k}", lambda: f"after {hist}: reported {k} = {got.tolist()}, expected {v.tolist()}")
+            apply_op(P, kind, o, ctx, hist)
+            tail = o["op"]
             if o["check"]:
                 collided = collided or hash_collision(P, kind, last_read)
                 if collided:
@@ -919,6 +940,86 @@ def b_stateful(case, ctx):
         compare_fresh(P, kind, ("set_height|pyhash_collision|" if collided else "") + "final|" + (ops[-1]["op"] if ops else "none"), hist)
         if not collided:
             state_check(P, kind, f"C15.stateful|{kind}|final", ctx)
+
+
+def make_member(spec):
+    """build a primitive from only the arguments present in the spec (absent = the constructor's default)"""
+    kind, p = spec["kind"], spec["p"]
+    kw = {k: v for k, v in p.items() if k != "polygon"}
+    if "polygon" in p:
+        kw["polygon"] = shapely_polygon(G.build_rings(p["polygon"]))
+    if spec["T"] is not None:
+        kw["transform"] = np.array(spec["T"], dtype=np.float64)
+    return getattr(primitives, kind)(**kw)
+
+
+def same_reported(a, b):
+    """-> name of the first reported parameter that differs, or None"""
+    for k in a:
+        if k == "polygon":
+            if a[k].wkb != b[k].wkb:
+                return k
+        elif not np.array_equal(np.asarray(a[k]), np.asarray(b[k])):
+            return k
+    return None
+
+
+def check_new_member(P, spec):
+    kind = spec["kind"]
+    rep = reported(P, kind)
+    sig = f"C15.population|{kind}|constructor"
+    want_T = np.eye(4) if spec["T"] is None else np.array(spec["T"], dtype=np.float64)
+    check(np.array_equal(rep["transform"], want_T), sig + "|transform", f"{kind}({sorted(spec['p'])}{'' if spec['T'] is None else ', transform'}) reports transform {rep['transform'].tolist()}, expected {want_T.tolist()}")
+    for k, v in spec["p"].items():
+        if k == "polygon":
+            continue
+        check(np.array_equal(np.asarray(rep[k], dtype=np.float64), np.asarray(v, dtype=np.float64)), sig + f"|{k}", f"{kind}({k}={v}) reports {k} = {rep[k]}")
+
+
+@body("C15.population")
+def b_population(case, ctx):
+    """several primitives alive at once (some built with default arguments, some created later): an edit of one member
+    changes that member only, and every member stays equal to a fresh primitive with its own reported parameters"""
+    with np.errstate(all="ignore"):
+        members = []
+        ndefault = 0
+        for spec in case["members"]:
+            P = make_member(spec)
+            check_new_member(P, spec)
+            members.append((spec["kind"], P))
+            ndefault += spec["T"] is None
+        inplace = sum(1 for st_ in case["steps"] if "op" in st_ and st_["op"]["op"] in ("transform_inplace", "transform_iadd", "center_inplace", "extents_inplace", "extents_imul"))
+        ctx.note(
+            nontrivial=ndefault >= 2 and inplace >= 1,
+            cls=["population", f"population:default_placed={min(ndefault, 3)}"] + (["population:inplace_edit"] if inplace else []) + (["population:created_later"] if any("create" in st_ for st_ in case["steps"]) else []),
+        )
+        for kind, P in members:
+            compare_fresh(P, kind, "population|initial", "construction")
+        hist = []
+        for st_ in case["steps"]:
+            before = [reported(P, kind) for kind, P in members]
+            target = None
+            if "create" in st_:
+                spec = st_["create"]
+                P = make_member(spec)
+                check_new_member(P, spec)
+                members.append((spec["kind"], P))
+                before.append(reported(P, spec["kind"]))
+                opname = "create"
+                hist.append(f"create {spec['kind']}")
+            else:
+                target = st_["who"]
+                kind, P = members[target]
+                opname = st_["op"]["op"]
+                h = []
+                apply_op(P, kind, st_["op"], ctx, h)
+                hist.append(f"{kind}[{target}].{h[-1] if h else opname}")
+            for i, (kind, P) in enumerate(members):
+                if i != target:
+                    k = same_reported(before[i], reported(P, kind))
+                    check(k is None, f"C15.population|{kind}|changed_by_other_member|{opname}|{k}", lambda: f"after {hist}: {k} of untouched member {i} ({kind}) changed from {np.asarray(before[i][k]).tolist() if k != 'polygon' else 'polygon'} to {np.asarray(reported(P, kind)[k]).tolist() if k != 'polygon' else 'polygon'}")
+                compare_fresh(P, kind, f"population|{opname}|{'target' if i == target else 'other'}", hist)
+                state_check(P, kind, f"C15.population|{kind}|{opname}|{'target' if i == target else 'other'}", ctx)
 
 
 # ------------------------------------------------------------------------------------------- sub-checks
@@ -993,6 +1094,11 @@ def s_primitive(ctx):
 @subcheck("C15", "stateful", shards={"quick": 6, "thorough": 12})
 def s_stateful(ctx):
     ctx.given("C15.stateful", G.stateful_case(), n={"quick": 700, "thorough": 20000})
+
+
+@subcheck("C15", "population", shards={"quick": 4, "thorough": 12})
+def s_population(ctx):
+    ctx.given("C15.population", G.population_case(), n={"quick": 220, "thorough": 8000})
 
 
 def _edit_pairs():
@@ -1075,4 +1181,9 @@ REQUIRED_CLASSES["C15"] = [
     "stateful:mirror:accepted",
     "stateful:mirror:rejected",
     "stateful:state_check",
+    "population:default_placed=2",
+    "population:inplace_edit",
+    "population:created_later",
+    "flat:hole:band",
+    "flat:hole:band:triangle",
 ]
